@@ -5,6 +5,23 @@ V = os.path.dirname(os.path.dirname(os.path.abspath(__file__)))
 ALL = ["C%02d" % i for i in range(1, 21)]
 
 CHECKS = {
+ "C01": dict(
+  level="exploration", design="§5 C01", engine="detsim",
+  technique="deterministic simulation of N real ConsensusState objects (verif hooks) under a seeded adversarial scheduler with Byzantine validators; online trace oracle over emission/delivery/commit logs",
+  text="Each case is one adversarial schedule (delivery order, loss, duplication, armed and stale timeouts, catch-up gossip, Byzantine equivocation / conflicting proposals / selective delivery with <1/3 power) over 4-7 real consensus state machines with real key files. "
+       "The oracle keeps its own vote/lock bookkeeping and checks agreement of CommitBlock calls, an independent >2/3 tally of every seen-commit and the three voting-discipline rules. Held on the schedules explored only; liveness is not claimed.",
+  note="trusted: the 250-line trace oracle, the light application (accepts any block extending its head), consensus/verif_hooks.go (synchronous entry points, no behaviour change). The wall-clock 'recover' mode is not triggered."),
+ "C16": dict(
+  level="exploration", design="§5 C16", engine="detsim",
+  technique="hostile-input monitoring: boundary-valued consensus messages of all kinds and mutated bytes through the real ConsensusReactor.Receive and the real state machine in a deterministic simulation; panic / allocation / bounded-progress oracles",
+  text="Every hostile message is encoded and handed to the real reactor, then the state machine's peer queue is drained; a panic after the reactor accepted the message, a per-message allocation above 64 MiB, a child killed by the 6 GiB address-space cap, or a victim that cannot commit the next block in a fault-free continuation (with modelled catch-up gossip) is a violation. "
+       "Sender roles: outsider, validator with a valid key, current proposer with its key. Held on the messages and states explored.",
+  note="panics inside Receive itself are recovered per connection in production and are only counted. Three genuine defects found and fixed (known_findings.txt)."),
+ "C17": dict(
+  level="exploration", design="§5 C17", engine="refmodel",
+  technique="differential monitoring of the real ValidatorSet / updateStatus / fault-evidence code against a one-step big.Int reference, path-composition comparison, exact fairness windows",
+  text="Random validator sets (incl. extreme powers): IncrementAccum(n) vs all compositions of n, single step vs saturating reference, exact weighted-round-robin fairness over windows, identity/copy/aliasing, add/update/remove histories vs a map model, ApplyBlock's validator update and VerifyFaultValEvidence call sites. Held on the sets explored.",
+  note="library level plus ApplyBlock at height 1; round skipping inside enterNewRound is exercised by C01's simulator (same IncrementAccum). One genuine defect found and fixed (known_findings.txt)."),
  "C10": dict(
   level="exploration", design="§5 C10", engine="refmodel",
   technique="runtime differential monitoring: real trie executions vs content-map oracle; adversarial proof tampering",
@@ -38,6 +55,9 @@ def main():
      },
      "engines": [
        {"name": "core", "path": "h/internal/core", "serves_properties": sorted(CHECKS), "kind_free_text": "child-process case runner, evidence writer, replay, known-findings matcher, race-report parser"},
+       {"name": "detsim", "path": "h/internal/detsim", "serves_properties": ["C01","C02","C16","C17"], "kind_free_text": "deterministic single-goroutine simulation of N real ConsensusState objects: network pool, seeded adversarial scheduler, Byzantine validators with real keys, reactor harness, trace oracle"},
+       {"name": "chainkit", "path": "h/internal/chainkit", "serves_properties": ["C02","C05","C06","C07","C08","C13","C15"], "kind_free_text": "real single-process chain on MemDBs from exported APIs: genesis with the WASM system contracts, application, mempool, block executor, block pipeline"},
+       {"name": "refmodel", "path": "h/checks", "serves_properties": ["C03","C09","C10","C11","C12","C17","C19"], "kind_free_text": "small reference models (sorted map, content map, one-step rotation, tallies) used as oracles next to the real code"},
        {"name": "shim", "path": "shim", "serves_properties": ["C01","C02","C05","C06","C07","C08","C13","C15","C16","C17","C20"], "kind_free_text": "link-time stand-in for libxcrypto (C on libsodium + cgo-exported Go TLV layer) that makes the core packages executable"},
      ],
      "checks": [],
